@@ -103,6 +103,40 @@ def expressions(draw, depth=2, max_items=4):
     return draw(_expr(_Names(), depth, max_items))
 
 
+@st.composite
+def _passthrough(draw, names):
+    """A simple operator without any apply-mode actor (train-only and/or label actors): its apply segment is a bare Future."""
+    spec = {'op': 'simple', 'name': names('m'), 'hp': draw(_HP), 'mapper': None, 'apply': None, 'train': None, 'label': None}
+    which = draw(st.sampled_from(['train', 'label', 'both']))
+    if which in ('train', 'both'):
+        spec['train'] = draw(_KINDS)
+    if which in ('label', 'both'):
+        spec['label'] = draw(_KINDS)
+    return spec
+
+
+@st.composite
+def scoped_expressions(draw):
+    """A multi-expanding operator (stacking ensemble, ``twice``) behind a scope that holds an explicitly parenthesised group,
+    most of whose members have no apply-mode actor: the copies such operators take of the scope's apply segment then run over
+    placeholder nodes that were only registered with each other, never subscribed (seeded change C03-5)."""
+    names = _Names()
+    one = lambda: draw(_passthrough(names)) if draw(st.integers(0, 9)) < 7 else draw(_simple(names))  # noqa: E731
+    prefix = [draw(_simple(names)) for _ in range(draw(st.integers(0, 2)))]
+    group = [one() for _ in range(draw(st.integers(1, 3)))]
+    if len(group) >= 2 and draw(st.booleans()):  # nested once more: a >> (b >> (c >> d))
+        group = group[:1] + [{'op': 'seq', 'items': group[1:]}] if len(group) > 2 else group
+    if draw(st.integers(0, 3)) == 0:
+        expander = {'op': 'twice', 'name': names('tw')}
+    else:
+        nb = draw(st.integers(1, 2))
+        bases = [draw(_expr(names, 0, max_items=2, allow_stack=False)) for _ in range(nb)]
+        expander = {'op': 'fullstack', 'name': names('fs'), 'nsplits': draw(st.integers(2, 3)), 'bases': bases}
+    suffix = [draw(_simple(names)) for _ in range(draw(st.integers(0, 1)))]
+    scope = prefix + [{'op': 'seq', 'items': group} if len(group) > 1 else group[0]]
+    return {'op': 'seq', 'items': scope + [expander] + suffix}
+
+
 # ---- builder --------------------------------------------------------------------------------------------------------------
 
 
@@ -332,6 +366,35 @@ def classes(expr):
     if nst >= 2:
         out.add('stateful>=2')
     return sorted(out)
+
+
+def _passes_through(e) -> bool:
+    """No apply-mode actor anywhere in the (sub-)expression: its apply segment consists of bare placeholders only."""
+    if e['op'] == 'seq':
+        return all(_passes_through(i) for i in e['items'])
+    return e['op'] == 'simple' and not e['mapper'] and not e['apply']
+
+
+def _chained_placeholders(items) -> bool:
+    """A scope made of apply-passthrough operators only, one of them an explicitly parenthesised group: the shape of the
+    recorded finding *copy-chained-futures* (its apply path is placeholders registered with each other, nothing subscribed)."""
+    return bool(items) and all(_passes_through(i) for i in items) and any(i['op'] == 'seq' and len(i['items']) >= 2 for i in items)
+
+
+def copy_scope_tags(expr, whole: bool = False) -> list:
+    """['scope-all-passthrough'] when some multi-expanding operator (stacking, twice) - or, with ``whole``, an evaluation
+    wrapped around the complete expression - copies a scope of the recorded shape; [] otherwise. Computed from the spec only:
+    it keeps the recorded finding's bucket from absorbing copy failures of any other scope (seeded change C03-5)."""
+    if whole and _chained_placeholders(expr['items'] if expr['op'] == 'seq' else [expr]):
+        return ['scope-all-passthrough']
+    for e in walk(expr):
+        if e['op'] == 'seq':
+            for i, item in enumerate(e['items']):
+                if item['op'] in ('fullstack', 'twice') and _chained_placeholders(e['items'][:i]):
+                    return ['scope-all-passthrough']
+        if e['op'] == 'fullstack' and any(_chained_placeholders(b['items'] if b['op'] == 'seq' else [b]) for b in e['bases']):
+            return ['scope-all-passthrough']
+    return []
 
 
 def nontrivial(expr):
